@@ -210,7 +210,12 @@ func (x *Exec) builtin(fr *frame, st *State, site ssa.Instruction, b *ssa.Builti
 			r = c.Scalar(r.T, ite(c.Cmp(op, r.Term(), a.Term(), r.T), r.Term(), a.Term()))
 		}
 		return r
-	case "delete", "print", "println", "close":
+	case "delete":
+		if len(args) == 2 {
+			x.mapDelete(st, args[0], args[1])
+		}
+		return Value{}
+	case "print", "println", "close":
 		return Value{}
 	case "clear":
 		if sl, ok := args[0].T.Underlying().(*types.Slice); ok {
@@ -389,14 +394,22 @@ func (x *Exec) abstractCall(fr *frame, st *State, site ssa.Instruction, key stri
 		pure = x.typePure(sig)
 	}
 	if !pure {
-		// type-based reachability: what the callee could write through its arguments
+		// type-based reachability: what the callee could write through its arguments; for a
+		// function of the module whose body is simply not inlined here (depth limit,
+		// recursion), the arrays its code can store to, computed over its body and callees
 		keys, all := x.reachable(sig, args, dynamic)
+		if callee != nil && !dynamic && len(callee.Blocks) > 0 && x.inModule(callee) {
+			ms := x.modOfFn(callee, map[*ssa.Function]bool{})
+			keys, all = sortedKeys(ms.keys), ms.all
+		}
 		if all {
-			x.havocAll(st, "call to "+shortKey(key)+" without contract")
+			x.keepPreserved(st, func() { x.havocAll(st, "call to "+shortKey(key)+" without contract") })
 		} else {
-			for _, k := range keys {
-				x.havocKey(st, k)
-			}
+			x.keepPreserved(st, func() {
+				for _, k := range keys {
+					x.havocKey(st, k)
+				}
+			})
 			if len(keys) > 0 {
 				c.Assume["call to "+shortKey(key)+" without contract: argument-reachable memory havocked"] = true
 			}
@@ -516,6 +529,11 @@ func (x *Exec) reachable(sig *types.Signature, args []Value, dynamic bool) (keys
 				all = true
 			}
 		case *types.Map:
+			if !seen["M"+typeKey(T)] {
+				seen["M"+typeKey(T)] = true
+				keys = append(keys, mapModKeys(T)...)
+			}
+			visit(u.Key(), d+1)
 			visit(u.Elem(), d+1)
 		case *types.Chan:
 		case *types.Signature:
